@@ -26,7 +26,7 @@ ASSUMPTIONS = ['not every source comment has to be captured (documented limitati
                'the "ES5 parser reads the output as the same tree" clause uses refjs on inputs refjs reads as the same tree']
 BUDGET_S = {'quick': 70, 'thorough': 900}
 REQUIRED_HITS = ['parse_pair', 'comment_audited', 'pretty_roundtrip']
-FLOOR = {'quick': 1500, 'thorough': 30000}
+FLOOR = {'quick': 1500, 'thorough': 20000}
 
 
 def comments_of(tree):
